@@ -150,7 +150,7 @@ func runC07(c *Ctx) {
 	max := w.Pick(1000, 125, 126, 65535, 65536, 100000)
 	// a conforming stream...
 	var stream []byte
-	nFrames := w.Range(1, 8)
+	nFrames := w.Range(1, c.Deep(8))
 	for i := 0; i < nFrames; i++ {
 		size := w.Pick(5, 0, 1, 125, 126, 127, 300, max)
 		if size > max {
